@@ -595,6 +595,10 @@ func (g *FnGen) evalCall(env *Env, x *ECall) SVal {
 				}
 			}
 		}
+		if strings.HasPrefix(a.Sort, "Slice_") {
+			// a slice: its backing array is an existing object (or the slice is nil)
+			return SVal{Term{fmt.Sprintf("(and (<= 0 (arr_%s %s)) (<= (arr_%s %s) %s))", a.Sort, a.S, a.Sort, a.S, g.allocTerm(env.st).S), "Bool"}, boolT}
+		}
 		return SVal{Term{fmt.Sprintf("(and (< 0 %s) (<= %s %s))", a.S, a.S, g.allocTerm(env.st).S), "Bool"}, boolT}
 	case "visited", "iterpos":
 		k := 0
@@ -637,6 +641,17 @@ func (g *FnGen) evalCall(env *Env, x *ECall) SVal {
 			}
 		}
 		return SVal{Term{fmt.Sprintf("(forall ((r! Int)) (=> %s (and %s true)))", cond, strings.Join(eqs, " ")), "Bool"}, boolT}
+	case "str2bytes":
+		// the (uninterpreted) conversion []byte(s), the same symbol the generator uses for the Go conversion
+		a := arg(0)
+		bt := types.NewSlice(types.Typ[types.Uint8])
+		srt := w.sortOf(bt)
+		w.decl("uf:str2bytes"+srt, fmt.Sprintf("(declare-fun str2bytes_%s (String) %s)", srt, srt))
+		return SVal{Term{fmt.Sprintf("(str2bytes_%s %s)", srt, a.S), srt}, bt}
+	case "bytes2str":
+		a := arg(0)
+		w.decl("uf:bytes2str", fmt.Sprintf("(declare-fun bytes2str (%s) String)", a.Sort))
+		return SVal{Term{fmt.Sprintf("(bytes2str %s)", a.S), "String"}, types.Typ[types.String]}
 	case "bitand":
 		a, b := arg(0), arg(1)
 		return SVal{Term{fmt.Sprintf("(ibitand %s %s)", a.S, b.S), "Int"}, intT}
